@@ -437,6 +437,17 @@ theorem conv_accepts (hreg : ∀ p s, x.regex p s = vx.regex p s) (rid : String 
               cases fd with
               | zero => simp [de, NR]
               | succ f => simp only [de, hg]; exact hsub f
+            · rename_i nm inner dfl ed im hg
+              have hsub := ihc (.ref k) inner v hc hv
+              cases fd with
+              | zero => simp [de, NR]
+              | succ f =>
+                simp only [de, hg]
+                have := hsub f
+                revert this; generalize de x σ f inner v = r; intro hr
+                cases r with
+                | ok a => simp [NR]
+                | error e => simp only; intro hcc; simp only [Except.error.injEq] at hcc; subst hcc; exact hr rfl
             · simp at hc
         · have hc2 : (match σ.get t with
               | none => false
